@@ -30,12 +30,16 @@ ENTRIES = ("predict", "recon", "evaluate", "validation_loop", "inference")
 HISTORIES = ("fresh", "after-other", "after-break", "interleaved", "second-pass", "after-error")
 
 
-def fname(v: int) -> str:
-    return f"vol_{v:02d}.h5"
+def fname(v: int, dirs: bool = False) -> str:
+    """file name of volume v; with `dirs` the volumes live in two directories and basenames collide pairwise
+    (site0/vol_00.h5, site1/vol_00.h5, site0/vol_01.h5, …) as in multi-site data listed through filenames_filter"""
+    return f"site{v % 2}/vol_{v // 2:02d}.h5" if dirs else f"vol_{v:02d}.h5"
 
 
 def fid(p) -> int:
-    return int(pathlib.Path(p).stem.split("_")[1])
+    p = pathlib.Path(p)
+    k = int(p.stem.split("_")[1])
+    return 2 * k + int(p.parent.name[4:]) if p.parent.name.startswith("site") else k
 
 
 def make_slice_nos(layout, policy: str, seed: int):
@@ -104,8 +108,9 @@ class MarkerDataset(torch.utils.data.Dataset):
     volume's file name, a `slice_no` and optionally the volume's header `reconstruction_size`"""
 
     def __init__(self, layout, data, scales, recon=None, slice_nos=None, cplx=False, text_description="toy", first_id=0,
-                 delay_seed=None):
+                 delay_seed=None, dirs=False):
         self.ndim = 2
+        self.dirs = dirs
         self.delay_seed = delay_seed      # items take a random time to load (only matters with loader workers)
         self.fail_at = None               # index of an unreadable item (history "after-error")
         self.text_description = text_description
@@ -113,7 +118,7 @@ class MarkerDataset(torch.utils.data.Dataset):
         self.items = []
         off = 0
         for v, n in enumerate(layout):
-            self.volume_indices[pathlib.Path(fname(first_id + v))] = range(off, off + n)
+            self.volume_indices[pathlib.Path(fname(first_id + v, dirs))] = range(off, off + n)
             self.items += [(v, s) for s in range(n)]
             off += n
         self.first_id = first_id
@@ -132,7 +137,7 @@ class MarkerDataset(torch.utils.data.Dataset):
         v, _s = self.items[i]
         m = self.data[i]
         h, w = m.shape[0], m.shape[1]
-        item = {"filename": fname(self.first_id + v), "slice_no": int(self.slice_nos[i]),
+        item = {"filename": fname(self.first_id + v, self.dirs), "slice_no": int(self.slice_nos[i]),
                 "scaling_factor": torch.tensor(self.scales[i], dtype=torch.float32),
                 "marker": m.clone(), "target": target_of(m, self.cplx), "sensitivity_map": torch.ones(1, h, w, 2),
                 "sampling_mask": torch.ones(1, h, w, 1)}
@@ -201,8 +206,18 @@ def engine():
         class ToyEngine(MRIModelEngine):
             marker_metrics = None
 
+            out_layout = "plain"
+
             def forward_function(self, data):
-                return data["marker"], None
+                m = data["marker"]
+                if self.out_layout == "noncontig":        # same values, strides of a transposed tensor
+                    m = m.transpose(1, 2).contiguous().transpose(1, 2)
+                elif self.out_layout == "f64":
+                    m = m.double()
+                elif self.out_layout == "batch-view":     # a view into a larger buffer (storage offset, shared storage)
+                    big = torch.cat([torch.full_like(m[:1], -3.0), m, torch.full_like(m[:1], -4.0)])
+                    m = big[1:-1]
+                return m, None
 
             def build_metrics(self, metrics_list):
                 if self.marker_metrics is not None:
@@ -344,8 +359,9 @@ def run_entry(case, ds, rank, tmp: pathlib.Path):
             return torch.tensor(float(len(calls)))
 
         eng.marker_metrics = {"marker_metric": rec}
-        old_crop = eng.cfg.validation.crop
+        old_crop, old_n = eng.cfg.validation.crop, eng.cfg.logging.tensorboard.num_images
         eng.cfg.validation.crop = crop
+        eng.cfg.logging.tensorboard.num_images = case.get("num_images", 8)
         try:
             if hist == "second-pass":
                 eng.evaluate(loader, loss_fns)
@@ -354,9 +370,11 @@ def run_entry(case, ds, rank, tmp: pathlib.Path):
         finally:
             eng.marker_metrics = None
             eng.cfg.validation.crop = old_crop
+            eng.cfg.logging.tensorboard.num_images = old_n
         names = list(metrics.keys())
+        extra_n_img = case.get("num_images", 8)
         extra = {"metric_values": [float(metrics[k]["marker_metric"]) for k in names], "n_calls": len(calls),
-                 "n_vis": len(vis), "vis": vis, "vis_target": vis_t}
+                 "n_vis": len(vis), "vis": vis, "vis_target": vis_t, "num_images": extra_n_img}
         return [(pathlib.Path(nm), v, t) for nm, (t, v) in zip(names, calls)], extra
     if entry == "validation_loop":
         from direct.utils.events import EventStorage
@@ -372,7 +390,9 @@ def run_entry(case, ds, rank, tmp: pathlib.Path):
         dss = [ds, other] if order == 0 else [other, ds]
         eng.marker_metrics = {"marker_metric": rec}
         old = eng.cfg.validation.crop, eng.cfg.validation.batch_size
+        old_n = eng.cfg.logging.tensorboard.num_images
         eng.cfg.validation.crop, eng.cfg.validation.batch_size = crop, bs
+        eng.cfg.logging.tensorboard.num_images = case.get("num_images", 8)
         training = eng.model.training
         try:
             with patched_comm(0, 1), EventStorage(0):
@@ -380,6 +400,7 @@ def run_entry(case, ds, rank, tmp: pathlib.Path):
         finally:
             eng.marker_metrics = None
             eng.cfg.validation.crop, eng.cfg.validation.batch_size = old
+            eng.cfg.logging.tensorboard.num_images = old_n
             eng.model.train(training)
         js = json.loads((tmp / f"metrics_val_{ds.text_description}_7.json").read_text())
         n_other = len(other_layout)
@@ -427,11 +448,20 @@ def build_dataset(case, root: pathlib.Path, data, nums, dens):
         return build_h5_dataset(d, case["layout"], data, scales, recon, case["cplx"], case.get("slice_filter"), "case")
     sn = make_slice_nos(case["layout"], case.get("slice_policy", "pos"), case["seed"])
     return MarkerDataset(case["layout"], data, scales, recon=recon, slice_nos=sn, cplx=case["cplx"], text_description="case",
-                         delay_seed=case["seed"] if case.get("workers") else None)
+                         delay_seed=case["seed"] if case.get("workers") else None, dirs=bool(case.get("dirs")))
 
 
 def check_case(case):
     """The property on the real code for one case, every rank.  Yields (key, what, observed)."""
+    eng = engine()
+    eng.out_layout = case.get("out_layout", "plain")
+    try:
+        yield from _check_case(case)
+    finally:
+        eng.out_layout = "plain"
+
+
+def _check_case(case):
     from core import err_name
 
     exp, data, nums, dens = reference(case)
@@ -470,7 +500,7 @@ def check_case(case):
                     yield ("metrics-per-volume", f"metrics: {extra['n_calls']} metric calls for {len(out)} volumes, values "
                            f"{extra['metric_values']}", {"rank": rank})
                 if "vis" in extra:
-                    n_img = min(len(out), int(engine().cfg.logging.tensorboard.num_images))
+                    n_img = min(len(out), int(extra["num_images"]))
                     ok = extra["n_vis"] == n_img and all(
                         torch.equal(extra["vis"][k], out[k][1][out[k][1].shape[0] // 2]) and
                         torch.equal(extra["vis_target"][k], out[k][2][out[k][2].shape[0] // 2]) for k in range(min(n_img, extra["n_vis"])))
@@ -520,7 +550,9 @@ def random_case(rng: random.Random, focus: str | None = None):
     case = {"op": "case", "ds": ds, "layout": layout, "slice_filter": flt, "slice_policy": policy, "hs": hs, "ws": ws,
             "cplx": rng.random() < 0.3, "crop": crop, "recon": None, "world": world, "bs": bs, "workers": 0, "entry": entry,
             "add_target": rng.random() < 0.5, "losses": rng.random() < 0.4, "history": hist, "vl_order": rng.randrange(2),
-            "seed": rng.randrange(2 ** 30)}
+            "out_layout": rng.choice(("plain", "plain", "noncontig", "f64", "batch-view")), "seed": rng.randrange(2 ** 30)}
+    case["num_images"] = rng.choice([1, 2, 3, 8])
+    case["dirs"] = ds == "marker" and entry in ("predict", "recon") and rng.random() < 0.3     # colliding basenames
     if crop == "header" or rng.random() < 0.2:
         case["recon"] = [(rng.randint(1, hs[v]), rng.randint(1, ws[v])) for v in range(nv)]
     return case
